@@ -318,9 +318,15 @@ func (c *c03) serverTable() map[string][]*srvEntry {
 						}
 					}
 				}
-				obj := objOf(info, lhs)
-				if obj == nil {
+				obj0 := objOf(info, lhs)
+				if obj0 == nil {
 					continue
+				}
+				// the variables that carry this result (through a private helper's returns, if
+				// the call sits in one)
+				carriers := map[types.Object]bool{}
+				for _, o := range m.flowOut(obj0) {
+					carriers[o] = true
 				}
 				// find the reply literal field initialised from this variable
 				ast.Inspect(root.Decl.Body, func(n ast.Node) bool {
@@ -340,12 +346,12 @@ func (c *c03) serverTable() map[string][]*srvEntry {
 								val = unparen(sl.X) // Data: dataBuf[:n] — n is the count, handled by C13
 								_ = val
 							}
-							if objOf(info, v.Value) == obj {
+							if carriers[objOf(info, v.Value)] {
 								e.Results[i] = v.Key.(*ast.Ident).Name
 							}
 						default:
 							// positional literal (&rreadlink{target}, &rstatfs{st})
-							if objOf(info, el) == obj {
+							if carriers[objOf(info, el)] {
 								if st, ok := nt.Underlying().(*types.Struct); ok && j < st.NumFields() {
 									e.Results[i] = st.Field(j).Name()
 								}
@@ -563,8 +569,9 @@ func (c *c03) clientMethod(fi *FuncInfo, name string, serverTab map[string][]*sr
 					return true
 				})
 			default:
-				// fresh fid: fid(id) with id from fidPool.Get
-				if obj := objOf(info, c.stripConv(val)); obj != nil {
+				// fresh fid: fid(id) with id from fidPool.Get (a helper's parameter stands for the
+				// expression it was called with)
+				if obj := objOf(info, c.stripConv(s.mapExpr(info, c.stripConv(val)))); obj != nil {
 					if def, ok2 := s.St.Defs[obj].(*ast.CallExpr); ok2 && calleeKey(info, def) == "p9.pool.Get" {
 						ok = true
 					}
@@ -850,8 +857,8 @@ func (c *c03) versionGating() {
 	ext := map[string]string{"tucreate": "versionSupportsTucreation", "tumkdir": "versionSupportsTucreation", "tumknod": "versionSupportsTucreation", "tusymlink": "versionSupportsTucreation", "twalkgetattr": "versionSupportsTwalkgetattr"}
 	n := 0
 	for _, fi := range r.L.funcsOfPkg("p9") {
-		if !isClientSide(fi) || fi.Decl.Body == nil {
-			continue
+		if !isClientSide(fi) || fi.Decl.Body == nil || m.transparent(fi) {
+			continue // (a private helper's requests are judged inside the methods that call it)
 		}
 		for _, s := range m.callsIn(fi, "p9.Client.sendRecv") {
 			nt := namedOf(info.TypeOf(s.Call.Args[0]))
@@ -898,8 +905,8 @@ func (c *c03) versionGating() {
 			}
 		}
 		okGA := false
-		for _, s := range m.DB.ByFunc[fi] {
-			if s.Callee == "p9.File.GetAttr" && s.St.holds(gate, false) {
+		for _, s := range m.callsIn(fi, "p9.File.GetAttr") {
+			if s.St.holds(gate, false) {
 				okGA = true
 			}
 		}
